@@ -618,6 +618,8 @@ impl<T> Shared<T> {
       let slot = (&(*chunk).slots).get_unchecked(idx);
       match v {
         Some(val) => {
+          #[cfg(all(loom, excsn_fibre_verif))]
+          crate::internal::verif_shadow::write(slot.data.get() as usize); // verification seam H10
           *slot.data.get() = Some(val);
           slot.state.store(SET, Ordering::Release);
         }
@@ -685,6 +687,8 @@ impl<T> Shared<T> {
       unsafe {
         for j in 0..seg {
           let slot = (&(*chunk).slots).get_unchecked(idx + j);
+          #[cfg(all(loom, excsn_fibre_verif))]
+          crate::internal::verif_shadow::write(slot.data.get() as usize); // verification seam H10
           *slot.data.get() = Some(iter.next().expect("resolve_run: iter shorter than valid"));
           slot.state.store(SET, Ordering::Release);
         }
@@ -733,6 +737,8 @@ impl<T> Shared<T> {
       let slot = unsafe { (&(*chunk).slots).get_unchecked(h.idx) };
       match slot.state.load(Ordering::Acquire) {
         SET => {
+          #[cfg(all(loom, excsn_fibre_verif))]
+          crate::internal::verif_shadow::write(slot.data.get() as usize); // verification seam H10
           let v = unsafe { (*slot.data.get()).take().unwrap() };
           // reset-on-drain: leave the slot EMPTY so reuse of this chunk needs no
           // producer-side reset burst (see ensure_resident). Relaxed is safe -
@@ -793,6 +799,8 @@ impl<T> Shared<T> {
       let slot = unsafe { (&(*chunk).slots).get_unchecked(h.idx) };
       match slot.state.load(Ordering::Acquire) {
         SET => {
+          #[cfg(all(loom, excsn_fibre_verif))]
+          crate::internal::verif_shadow::write(slot.data.get() as usize); // verification seam H10
           let v = unsafe { (*slot.data.get()).take().unwrap() };
           slot.state.store(EMPTY, Ordering::Relaxed); // reset-on-drain (see deq_once)
           out.push(v);
